@@ -9,20 +9,17 @@ use super::*;
 //@include prelude/atomic.rs
 //@include prelude/dbview.rs
 //@include prelude/hof.rs
+//@include prelude/index_spec.rs
 } // mod pre
 use pre::*;
 
 //@dbstruct definitions file_definitions usages usage_by_fixture definitions_version
 
+//@include prelude/index_dbspecs.rs
+
 broadcast use {axiom_default_vec, axiom_default_hashset};
 
 impl FixtureDatabase {
-    pub open spec fn defs(&self) -> Map<Seq<char>, Seq<DefV>> { defs_view(self.definitions.m()) }
-    pub open spec fn fdefs(&self) -> Map<PV, Set<Seq<char>>> { fdefs_view(self.file_definitions.m()) }
-    pub open spec fn uses(&self) -> Map<PV, Seq<UseV>> { usages_view(self.usages.m()) }
-    pub open spec fn byfix(&self) -> Map<Seq<char>, Seq<(PV, UseV)>> { byfix_view(self.usage_by_fixture.m()) }
-    pub open spec fn version(&self) -> u64 { self.definitions_version.v }
-
 /*@ extract src/fixtures/mod.rs invalidate_cycle_cache
 @recv mut
 @sig
@@ -257,31 +254,6 @@ impl FixtureDatabase {
         assert(pset =~= old(self).byfix().dom());
     }
 @*/
-}
-
-pub open spec fn pair_keep(f: PV) -> spec_fn((PathBuf, FixtureUsage)) -> bool { |e: (PathBuf, FixtureUsage)| pbv(&e.0) != f }
-pub open spec fn pair_not_in_file(f: PV) -> spec_fn((PV, UseV)) -> bool { |e: (PV, UseV)| e.0 != f }
-/// what cleanup_usages_for_file does to the reverse index: every bucket loses its entries filed under
-/// file f; buckets that are (or become) empty disappear
-pub open spec fn clean_byfix(m: Map<Seq<char>, Seq<(PV, UseV)>>, f: PV) -> Map<Seq<char>, Seq<(PV, UseV)>> {
-    Map::new(m.dom().filter(|k: Seq<char>| m[k].filter(pair_not_in_file(f)).len() > 0),
-             |k: Seq<char>| m[k].filter(pair_not_in_file(f)))
-}
-
-pub open spec fn clean_byfix_names(m: Map<Seq<char>, Seq<(PV, UseV)>>, f: PV, names: Set<Seq<char>>) -> Map<Seq<char>, Seq<(PV, UseV)>> {
-    Map::new(m.dom().filter(|k: Seq<char>| names.contains(k) ==> m[k].filter(pair_not_in_file(f)).len() > 0),
-             |k: Seq<char>| if names.contains(k) { m[k].filter(pair_not_in_file(f)) } else { m[k] })
-}
-
-pub open spec fn not_in_file(f: PV) -> spec_fn(DefV) -> bool { |d: DefV| d.file != f }
-pub open spec fn clean_bucket(s: Seq<DefV>, f: PV) -> Seq<DefV> { s.filter(not_in_file(f)) }
-
-/// what cleanup_definitions_for_file does: the buckets of the listed names lose their entries of
-/// file f and disappear when that empties them; every other bucket is untouched
-pub open spec fn clean_defs_names(defs: Map<Seq<char>, Seq<DefV>>, f: PV, names: Set<Seq<char>>) -> Map<Seq<char>, Seq<DefV>> {
-    Map::new(
-        defs.dom().filter(|k: Seq<char>| names.contains(k) ==> clean_bucket(defs[k], f).len() > 0),
-        |k: Seq<char>| if names.contains(k) { clean_bucket(defs[k], f) } else { defs[k] })
 }
 
 } // verus!
